@@ -64,6 +64,7 @@ int ref_recognise(int lang, const char *tok);
 /* full decoder.  lang = -1: automatic.  The input is first reduced to what the
  * library can see: if a non-ASCII byte occurs in the first cap bytes the string
  * is NFKD-normalised, then it is cut to cap bytes (cap = sizeof(polyseed_str)-1). */
+extern int REF_NORMALISER;   /* 0 = the reference decoder normalises with NFKD; 1 = the injected normaliser is the identity */
 int ref_decode(const char *str, unsigned coin, int lang, unsigned enabled_mask,
                int alloc_fails, size_t cap, rseed *out, int *lang_out);
 /* number of languages that recognise all 16 tokens (after the same reduction);
